@@ -24,6 +24,28 @@ type VStore struct {
 	ops          int        // count of all operations (read, write, remove)
 	FailAt       int        // 1-based index of the operation that returns ErrInjected; 0 = never
 	Failed       bool
+
+	// one-shot pause point: the next Write whose key contains pauseKey signals `paused` and waits for `resume`
+	// (realises a chosen interleaving of a read-modify-write with another goroutine's step)
+	pauseKey string
+	paused   chan struct{}
+	resume   chan struct{}
+}
+
+// ArmPause arms the one-shot pause point and returns (paused, resume).
+func (s *VStore) ArmPause(keyPart string) (chan struct{}, chan struct{}) {
+	s.mu.Lock()
+	defer s.mu.Unlock()
+	s.pauseKey = keyPart
+	s.paused = make(chan struct{})
+	s.resume = make(chan struct{})
+	return s.paused, s.resume
+}
+
+func (s *VStore) DisarmPause() {
+	s.mu.Lock()
+	s.pauseKey = ""
+	s.mu.Unlock()
 }
 
 type Mutation struct {
@@ -55,6 +77,14 @@ func (s *VStore) OpCount() int {
 
 func (s *VStore) Write(ctx context.Context, key string, body []byte, options *storage.Options) error {
 	s.mu.Lock()
+	if s.pauseKey != "" && strings.Contains(key, s.pauseKey) {
+		paused, resume := s.paused, s.resume
+		s.pauseKey = ""
+		s.mu.Unlock()
+		close(paused)
+		<-resume
+		s.mu.Lock()
+	}
 	defer s.mu.Unlock()
 	if err := s.tick(); err != nil {
 		return err
